@@ -127,6 +127,15 @@ PROPS = {
         rule="13 sub-populations round-robin (4 core, 9 single-feature); each case encoded in CBE and CTE; distinct by event text; non-trivial = more than the header events",
         trusted_base=COMMON_TB,
     ),
+    "C26": dict(
+        claim="theorems over the model of internal/arrays (toLE/fromLE on element bit patterns, any element width): bytes->slice inverts slice->bytes for in-range elements; slice->bytes inverts bytes->slice on whole elements; byte i of an element is bits 8i..8i+7 (little-endian); length law. "
+              "Harness: all 9 public helper pairs x lengths 0..65 x boundary/NaN-payload/random bit patterns: model correspondence both ways, both inverse laws decided directly, trailing partial element behaviour, and the CBE marshaler's array bytes compared with <T>SliceAsBytes",
+        note="the theorems are about the byte-wise path; on this little-endian host the unsafe fast path is dead code because the endianness probe is inverted (DESIGN.md D29) - a change activating it is caught by the correspondence. Big-endian hosts are out of reach",
+        level="proof", n_quick=2400, n_thorough=120000, shards=8,
+        lean_modules=["CE.Props.C26", "CE.Arr.LE"],
+        rule="case i: helper i mod 9, length (i div 9) mod 66, elements from a special pool (boundaries, sNaN/qNaN payloads) or random; distinct by type+elements",
+        trusted_base=COMMON_TB,
+    ),
 }
 
 NOT_APPLICABLE = {}
